@@ -9,24 +9,26 @@ import (
 	"path/filepath"
 	"sort"
 	"strings"
+	"sync"
 
 	"golang.org/x/tools/go/packages"
 )
 
 type Engine struct {
-	repo    string
-	pkg     *packages.Package
-	fset    *token.FileSet
-	info    *types.Info
-	funcs   map[string]*ast.FuncDecl // qualified name -> decl
-	fobj    map[string]*types.Func
-	fileOf  map[string]string
-	cf      *ContractFile
-	typeIds map[string]int
-	typeIdL []string
-	specFns map[string]bool // functions defined in zz_spec_verif.go
-	srcs    map[string][]byte
+	repo      string
+	pkg       *packages.Package
+	fset      *token.FileSet
+	info      *types.Info
+	funcs     map[string]*ast.FuncDecl // qualified name -> decl
+	fobj      map[string]*types.Func
+	fileOf    map[string]string
+	cf        *ContractFile
+	typeIds   map[string]int
+	typeIdL   []string
+	specFns   map[string]bool // functions defined in zz_spec_verif.go
+	srcs      map[string][]byte
 	funcLoops map[string][]ast.Stmt
+	mu        sync.Mutex
 }
 
 func qualName(fd *ast.FuncDecl) string {
@@ -129,6 +131,8 @@ func LoadEngine(repo string) (*Engine, error) {
 }
 
 func (e *Engine) typeId(t types.Type) int {
+	e.mu.Lock()
+	defer e.mu.Unlock()
 	k := types.TypeString(t, nil)
 	if id, ok := e.typeIds[k]; ok {
 		return id
@@ -210,6 +214,8 @@ func (e *Engine) srcText(n ast.Node) string {
 
 // loopsOf lists the loops of a function in source order (ordinal 1..n).
 func (e *Engine) loopsOf(q string) []ast.Stmt {
+	e.mu.Lock()
+	defer e.mu.Unlock()
 	if l, ok := e.funcLoops[q]; ok {
 		return l
 	}
